@@ -443,4 +443,81 @@ func main() {
 			}
 		}
 	}
+	// Directed, after the random worlds (their stream stays what it was): one block carries two
+	// different accepted requests for the same node, so the order in which the block's changes are
+	// applied is visible in the next validator set.  Several fresh worlds: an order that depends on
+	// Go's map iteration differs from run to run.
+	for d := 0; d < r.Scale(12, 60); d++ {
+		history = history[:1]
+		n := 4 + d%3
+		var vs []string
+		for i := 0; i < n; i++ {
+			vs = append(vs, fmt.Sprintf("%s:%d", vh.Hex(addr(i)), 10))
+		}
+		do("vals " + strings.Join(vs, " "))
+		var ents []string
+		for k := 0; k < n; k++ {
+			ents = append(ents, fmt.Sprintf("%d.0", k))
+		}
+		want := map[int]int64{}
+		for i := 0; i < n; i++ {
+			want[i] = 10
+		}
+		type rq struct {
+			cmd string
+			tgt int
+			pw  int64
+		}
+		var reqs []rq
+		switch d % 4 {
+		case 0:
+			reqs = []rq{{"update", 0, 5}, {"update", 0, 7}}
+		case 1:
+			reqs = []rq{{"update", 1, 7}, {"update", 1, 5}, {"update", 1, 3}}
+		case 2:
+			reqs = []rq{{"update", 2, 2}, {"remove", 3, 0}, {"update", 2, 9}, {"update", 1, 8}, {"update", 1, 6}}
+		case 3:
+			reqs = []rq{{"update", 0, 1}, {"update", 1, 2}, {"update", 0, 3}, {"update", 1, 4}, {"update", 0, 5}}
+		}
+		acct := uint64(0)
+		allOK := true
+		for _, q := range reqs {
+			line := fmt.Sprintf("exec %s %d 1 1 %s %d %s t%d %d 1 %s", admin, acct+1, admin, acct, q.cmd, q.tgt, q.pw, strings.Join(ents, " "))
+			res := do(line)
+			acct++
+			if !strings.HasPrefix(res, "ok") || !strings.Contains(res, "changed=1") {
+				allOK = false
+				break
+			}
+			if q.cmd == "remove" {
+				delete(want, q.tgt)
+			} else {
+				want[q.tgt] = q.pw
+			}
+		}
+		r.Count(fmt.Sprintf("directed.same-node-twice.case%d.accepted=%v", d%4, allOK))
+		if !allOK {
+			continue
+		}
+		eb := do("endblock")
+		if !strings.HasPrefix(eb, "ok") {
+			continue
+		}
+		got := map[string]int64{}
+		for _, x := range strings.Split(strings.TrimPrefix(eb, "ok "), ",") {
+			if x != "" {
+				f := strings.Split(x, ":")
+				got[f[0]] = atoi(f[1])
+			}
+		}
+		okm := len(got) == len(want)
+		for k, p := range want {
+			if v, has := got[vh.Hex(addr(k))]; !has || v != p {
+				okm = false
+			}
+		}
+		if !okm {
+			fail("next-validator-set-differs-from-accepted-changes", "two accepted requests for the same node in one block: the next validator set is not the accepted changes applied in the order they were accepted", eb, fmt.Sprint(want))
+		}
+	}
 }
